@@ -284,8 +284,8 @@ def run(tier, seed):
     meta = {
         "level": "model_checking",
         "rule": "breadth-first search over histories (depth %d) of insert_absence_time_list(L) and remove_absence_time_list() on finished simulations (forward with absence [], [1], [0,2], [1,30,31]; backward with [1] and [1,3,40,41]) of the base "
-        "models (FS chain, parallel, automatic, facility+conveyor, shared component, nested, sub-project task), L ranging over every multiset of size <= 2 in ascending and descending order (thorough: also 3-subsets) of "
-        "{0, 1, mid, last, last+1, last+10}; after every edit: no exception, every per-step log changed by the same count, time == common length, inserted steps zero-cost/no-work; insert-then-remove "
+        "models (FS chain, parallel, automatic, facility+conveyor, shared component, nested, sub-project task, partly done tasks, a WORKING-READY-WORKING component, an empty team and an empty workplace), L ranging over every multiset of size <= 2 in ascending and descending order (thorough: also 3-subsets) of "
+        "{0, 1, mid, last, last+1, last+10}; after every edit: no exception, every per-step log changed by the same count, time == common length, inserted steps zero-cost/no-work (tasks, resources and components); insert-then-remove "
         "on an absence-free result restores all logs; states de-duplicated on the complete log dump; non-trivial = distinct reached log states" % depth,
         "bounds": {"depth": depth, "start_states": len(items)},
         "assumptions": [],
